@@ -68,6 +68,7 @@ func compileBuilder(in io.Reader, codec *dnsdata.Codec, destPath string, opts Co
 		return 0, fmt.Errorf("error opening database at %s: %w", destPath, err)
 	}
 	defer builder.FreeBuilder()
+	builder.db = verifWrapCompiled(builder.db)
 
 	log.Println("Reading ...")
 	// Scan
@@ -138,6 +139,7 @@ func compileBatches(in io.Reader, codec *dnsdata.Codec, destPath string, opts Co
 			}
 		}
 	}()
+	db.db = verifWrapCompiled(db.db)
 	rdbBatch := db.CreateBatch()
 
 	log.Println("Reading ...")
